@@ -364,7 +364,10 @@ class Run:
                 "engine_versions": engine_versions(),
                 "exhaustive": False,
             },
-            "assumptions": meta.get("assumptions", []) + ["stub: " + s for s in stubs],
+            "assumptions": meta.get("assumptions", []) + ["stub: " + s for s in stubs] + [
+                "every explored path starts from the process-global rtflite state of a fresh import (module/class-level "
+                "containers, singleton attributes and functools caches are restored before each path); dependence on "
+                "earlier calls is decided only by the explicit history obligations"],
             "wall_s": round(time.time() - self.t0, 2),
             "violations": len(self.violations) + len(self.witness.get("violation_paths", [])),
         }
